@@ -27,48 +27,8 @@ func init() {
 			const rule = "C04-j no-prefix-scan-for-assertions"
 			r.Rule(rule + ": LiteralPrefix is only asked for expressions without empty-width assertions")
 			n := 0
-			// functions that answer by the Op test: first result `true` under Op == InstEmptyWidth
-			isOpTest := func(c ast.Expr) bool {
-				be, ok := ast.Unparen(c).(*ast.BinaryExpr)
-				if !ok || be.Op != token.EQL {
-					return false
-				}
-				for _, side := range []ast.Expr{be.X, be.Y} {
-					if se, ok := ast.Unparen(side).(*ast.SelectorExpr); ok && se.Sel.Name == "InstEmptyWidth" {
-						return true
-					}
-				}
-				return false
-			}
-			answers := map[*Fn]bool{}
-			for _, h := range p.FnList {
-				if h.Body() == nil || h.Lit != nil {
-					continue
-				}
-				hit := false
-				inspectShallow(h.Body(), func(x ast.Node) bool {
-					ifs, ok := x.(*ast.IfStmt)
-					if !ok || len(ifs.Body.List) == 0 {
-						return true
-					}
-					ret, ok := ifs.Body.List[len(ifs.Body.List)-1].(*ast.ReturnStmt)
-					if !ok || len(ret.Results) == 0 {
-						return true
-					}
-					if id, ok := ast.Unparen(ret.Results[0]).(*ast.Ident); !ok || id.Name != "true" {
-						return true
-					}
-					for _, d := range disjuncts(ifs.Cond) {
-						if isOpTest(d) {
-							hit = true
-						}
-					}
-					return true
-				})
-				if hit {
-					answers[h] = true
-				}
-			}
+			oi := newOpTestInfo(p)
+			answers := oi.answers
 			for _, f := range p.FnList {
 				if f.Short != "index" || f.Body() == nil {
 					continue
